@@ -1,2 +1,16 @@
 import BklProofs.C04
-#print axioms Bkl.C04_placeholder
+#print axioms Bkl.C04_int_exact
+#print axioms Bkl.C04_yaml_int_repr
+#print axioms Bkl.C04_parseInt64_toString
+#print axioms Bkl.C04_int_out_of_range
+#print axioms Bkl.C04_normalize_total
+#print axioms Bkl.C04_float_path
+#print axioms Bkl.C04_compare_canonical
+#print axioms Bkl.C04_map_order_irrelevant
+#print axioms Bkl.C04_map_sorted
+#print axioms Bkl.C04_yaml_merge_key
+#print axioms Bkl.C04_yaml_merge_key_list
+#print axioms Bkl.C04_yaml_merge_key_scalar
+#print axioms Bkl.C04_yaml_merge_key_instance
+#print axioms Bkl.C04_yaml_merge_key_list_instance
+#print axioms Bkl.C04_toml_array_of_tables
